@@ -1084,7 +1084,7 @@ ByteString DBObject::getByteStringValue(CK_ATTRIBUTE_TYPE type)
 	}
 }
 
-CK_ATTRIBUTE_TYPE DBObject::nextAttributeType(CK_ATTRIBUTE_TYPE)
+CK_ATTRIBUTE_TYPE DBObject::nextAttributeType(CK_ATTRIBUTE_TYPE type)
 {
 	MutexLocker lock(_mutex);
 
@@ -1099,8 +1099,29 @@ CK_ATTRIBUTE_TYPE DBObject::nextAttributeType(CK_ATTRIBUTE_TYPE)
 		return false;
 	}
 
-	// FIXME: implement for C_CopyObject
-	return CKA_CLASS;
+	// The smallest attribute type above the given one that is stored for this
+	// object in any of the attribute tables, or CKA_CLASS (= 0) when there is none
+	DB::Statement statement = _connection->prepare(
+		"select min(type) from ("
+		"select type from attribute_boolean where object_id=%lld and type>%lu "
+		"union select type from attribute_integer where object_id=%lld and type>%lu "
+		"union select type from attribute_binary where object_id=%lld and type>%lu "
+		"union select type from attribute_array where object_id=%lld and type>%lu)",
+		_objectId, type,
+		_objectId, type,
+		_objectId, type,
+		_objectId, type);
+	if (!statement.isValid())
+	{
+		return CKA_CLASS;
+	}
+	DB::Result result = _connection->perform(statement);
+	if (!result.isValid() || result.fieldIsNull(1))
+	{
+		return CKA_CLASS;
+	}
+
+	return result.getULongLong(1);
 }
 
 // Set the specified attribute
